@@ -85,7 +85,7 @@ def _cc_spectrum_contract(unit, qe_unit):
         calls = ctx.__dict__.get('ghost_sample_calls', [])
         name = 'detector.collect_charge::%%s[%s]' % tag
         ok = len(calls) == 1 and calls[0]['self'] is env['qe']
-        ctx.oblige(name % 'qe_spectrum_sampled_once', ok, info={'calls': len(calls)})
+        ctx.oblige(name % 'qe_spectrum_sampled_once', ok, 'structure', info={'calls': len(calls)})
         if not ok:
             return None
         ctx.oblige(name % 'sampled_in_the_callers_wavelength_unit', calls[0]['waveunit'] == unit,
